@@ -646,6 +646,82 @@ pub fn dfs_straight<C: Backing>(ctx: &Ctx, rep: &mut Report, seed: usize, depth:
     }
 }
 
+
+/// Two deques of the same type alive at once, ops applied alternately (a[0], b[0], a[1], b[1], ...):
+/// whatever one instance does must leave the other one alone (state kept outside the objects - a
+/// static, a thread-local, a shared scratch buffer - shows here and nowhere else).
+pub fn run_twin<C: Backing>(seed_items: usize, pa: &[Op], pb: &[Op]) -> Result<(), String> {
+    let mut a: State<C> = State::new(seed_items);
+    let mut b: State<C> = State::new(seed_items);
+    a.apply(Op::Adv0).map_err(|e| format!("initial state: {}", e))?;
+    b.apply(Op::Adv0).map_err(|e| format!("initial state: {}", e))?;
+    for i in 0..pa.len().max(pb.len()) {
+        if let Some(op) = pa.get(i) {
+            a.apply(*op).map_err(|e| format!("deque A step {} ({}): {}", i + 1, op.name(), e))?;
+            b.observe().map_err(|e| format!("deque B after A's step {} ({}): {}", i + 1, op.name(), e))?;
+        }
+        if let Some(op) = pb.get(i) {
+            b.apply(*op).map_err(|e| format!("deque B step {} ({}): {}", i + 1, op.name(), e))?;
+            a.observe().map_err(|e| format!("deque A after B's step {} ({}): {}", i + 1, op.name(), e))?;
+        }
+    }
+    Ok(())
+}
+
+/// Periodic unrollings on ONE object (or on two alternating ones): every cycle of 1..=max_len ops,
+/// repeated `reps` times.  Reaches what the depth bound and the size-capped closure cannot: the N-th
+/// occurrence of an event, container growth across size classes, counters and thresholds.
+pub fn cycles<C: Backing>(ctx: &Ctx, rep: &mut Report, seed: usize, max_len: usize, reps: usize, unit_base: &mut usize, ops: &'static [Op], twin: bool) {
+    let n = ops.len();
+    let mut count = 0u64;
+    for len in 1..=max_len {
+        for c in 0..n.pow(len as u32) {
+            let u = *unit_base + c % 4096;
+            if !ctx.owns(u) {
+                continue;
+            }
+            let mut x = c;
+            let mut cycle: Vec<Op> = Vec::with_capacity(len);
+            for _ in 0..len {
+                cycle.push(ops[x % n]);
+                x /= n;
+            }
+            if (1..len).any(|d| len % d == 0 && (0..len).all(|i| cycle[i] == cycle[i % d])) {
+                continue;
+            }
+            let path: Vec<Op> = (0..len * reps).map(|i| cycle[i % len]).collect();
+            count += 1;
+            rep.evaluations += 1;
+            rep.transitions += path.len() as u64 * if twin { 2 } else { 1 };
+            if !twin {
+                if let Err(e) = run_history::<C>(seed, &path, Mode::Straight) {
+                    // cut the history at the failing step
+                    let at = e.strip_prefix("step ").and_then(|r| r.split(' ').next()).and_then(|k| k.parse::<usize>().ok()).unwrap_or(path.len());
+                    let cut = &path[..at.min(path.len())];
+                    let e2 = run_history::<C>(seed, cut, Mode::Straight).err().unwrap_or(e);
+                    violation::<C>(rep, seed, cut, &e2, Mode::Straight);
+                }
+            } else {
+                // B runs the same cycle one op ahead
+                let pb: Vec<Op> = (0..len * reps).map(|i| cycle[(i + 1) % len]).collect();
+                if let Err(e) = run_twin::<C>(seed, &path, &pb) {
+                    if run_twin::<C>(seed, &path, &pb).err().as_ref() != Some(&e) {
+                        machinery_failure(&format!("twin violation did not reproduce identically: {}", e));
+                    }
+                    let (ha, hb) = (render(seed, &path), render(seed, &pb));
+                    rep.violation(Violation {
+                        key: format!("C15:twin:{}:{}", C::NAME, render(seed, &cycle).replace(' ', "")),
+                        summary: format!("two SlidingDeque<{}> used alternately, cycle [{}] x {} (B one op ahead): {}", C::NAME, render(seed, &cycle), reps, e),
+                        replay_text: format!("check: sliding-twin\nbacking: {}\nhistory-a: {}\nhistory-b: {}\nobserved: {}\n", C::NAME, ha, hb, e),
+                    });
+                }
+            }
+        }
+        *unit_base += 4096;
+    }
+    rep.count(if twin { "twin_cycles_unrolled" } else { "cycles_unrolled" }, count);
+}
+
 /// Zero-sized items: a `SlidingDeque<Vec<()>>` built from a vector of up to usize::MAX elements is
 /// legal (no memory is involved), and its cursor arithmetic runs at the top of the usize range.
 /// All op sequences to `depth` over pushes, pops, advances by 1 / half / half+1 / half+2 / MAX,
@@ -817,6 +893,16 @@ pub fn run(ctx: &Ctx) -> Report {
         dfs_straight::<Vec<u32>>(ctx, &mut rep, seed, ctx.tier.pick(4, 5), &mut unit, &OPS_BIG);
         dfs_straight::<SmallVec<[u32; 2]>>(ctx, &mut rep, seed, ctx.tier.pick(4, 5), &mut unit, &OPS_BIG);
     }
+    // periodic unrollings (one object), and two objects used alternately
+    let (cl_len, cl_reps) = (ctx.tier.pick(4, 5), ctx.tier.pick(40, 100));
+    cycles::<SpyVec<u32>>(ctx, &mut rep, 0, cl_len, cl_reps, &mut unit, &OPS_EXT, false);
+    cycles::<Vec<u32>>(ctx, &mut rep, 0, cl_len, cl_reps, &mut unit, &OPS_EXT, false);
+    cycles::<SmallVec<[u32; 2]>>(ctx, &mut rep, 0, cl_len, cl_reps, &mut unit, &OPS_EXT, false);
+    cycles::<SmallVec<[u32; 2]>>(ctx, &mut rep, 3, cl_len - 1, cl_reps, &mut unit, &OPS_EXT, false);
+    cycles::<Vec<u32>>(ctx, &mut rep, 1024, cl_len - 1, cl_reps, &mut unit, &OPS_BIG, false);
+    cycles::<SpyVec<u32>>(ctx, &mut rep, 0, cl_len - 1, cl_reps, &mut unit, &OPS_EXT, true);
+    cycles::<SmallVec<[u32; 2]>>(ctx, &mut rep, 3, cl_len - 1, cl_reps, &mut unit, &OPS_EXT, true);
+    rep.note(format!("C15: periodic unrollings: every cycle of 1..={} ops over the 16-op alphabet repeated {} times on one object (SpyVec, Vec, SmallVec from empty; SmallVec from 3 items and Vec from 1024 items one op shorter), oracle after every op; the same with TWO deques alive and used alternately (the second one op ahead in the cycle), each against its own model", cl_len, cl_reps));
     rep.note(format!("C15: large containers: From<container> with 1024, 1500 and 5000 items (Vec and spilled SmallVec), all sequences to depth {} over {:?}", ctx.tier.pick(4, 5), OPS_BIG.iter().map(|o| o.name()).collect::<Vec<_>>()));
     rep.note(format!("C15: the cloning explorers copy the deque before every op (exactly-fitting capacity, so every push meets a full container); the straight explorer re-executes all histories to depth {} on one object (amortised capacities)", depth - 2));
     rep.note(format!(
@@ -844,6 +930,21 @@ pub fn replay(text: &str) -> Result<String, String> {
         return match zst_run_one(start, &path) {
             Err(e) => Ok(format!("{} zero-sized items, {}: {}", start, hist, e)),
             Ok(()) => Err(format!("{} zero-sized items, {}: agrees with the counter model", start, hist)),
+        };
+    }
+    if field(text, "check") == Some("sliding-twin") {
+        let backing = field(text, "backing").unwrap_or("SpyVec");
+        let (Some((seed, pa)), Some((_, pb))) = (field(text, "history-a").and_then(parse_history), field(text, "history-b").and_then(parse_history)) else {
+            machinery_failure("cannot parse twin histories");
+        };
+        let r = match backing {
+            "Vec" => run_twin::<Vec<u32>>(seed, &pa, &pb),
+            "SmallVec2" => run_twin::<SmallVec<[u32; 2]>>(seed, &pa, &pb),
+            _ => run_twin::<SpyVec<u32>>(seed, &pa, &pb),
+        };
+        return match r {
+            Err(e) => Ok(format!("two deques used alternately: {}", e)),
+            Ok(()) => Err("two deques used alternately: both agree with their reference deques".to_string()),
         };
     }
     let backing = field(text, "backing").unwrap_or("SpyVec");
